@@ -79,3 +79,13 @@ prop(
     level_text="In generated sync histories (real Eaglesong PoW so that nonce rejection is observable, or dummy PoW; last-N 1..100; fresh, restarted and re-proving clients; shallow reorgs) every SendLastStateProof that differs from the honest answer to the outstanding request - header / proof item / chain root / uncles hash / extension altered, dropped, duplicated, swapped, replaced by a neighbour or by another branch, section boundaries shifted, re-generated consistent proofs with one header missing or a wrong sample, answers to earlier or other peers' requests, replays - left the trusted state byte-for-byte unchanged.",
     level_note="labels come from construction, not from re-implementing the verifier; FlyClient's probabilistic guarantee (a flaw outside the sampled set) is out of reach of a per-run oracle",
 )
+
+prop(
+    "C12", "exploration",
+    rule="one evaluation = one observed change of the stored (total difficulty, tip) pair, one restart comparison or one bounded-progress judgement after an adversarial announcement; "
+         "a cell = (cause of the move, last adversarial operator) / injected operator / recovery outcome",
+    sizes=tiers(16, 60, 60, 16, 3000, 900, min_evals=1500, min_cells=12),
+    technique="runtime monitoring: online invariant check at every change of LAST_STATE against ground-truth cumulative difficulty, reopen comparison, bounded-progress oracle with one deviating peer among honest ones",
+    level_text="At every change of the stored tip in generated histories with honest peers plus one deviating peer (forged child announcements whose extension commits to a parent chain root with inflated / deflated / zero / 2^250 total difficulty or a wrong end number, equal-difficulty competitors, truthful self-mined children, stale announcements, restarts): the new tip is proven by some peer, strictly heavier, its stored total difficulty equals the real cumulative difficulty (for a fabricated child: proven parent's total + its own difficulty), the remembered last-N headers are its ancestors, a reopen reproduces the triple, and honest growth is followed within 60 rounds.",
+    level_note="ground truth comes from the chain generator; unbounded 'cannot freeze' is restated as bounded progress",
+)
